@@ -403,7 +403,16 @@ class EditedSplit(SplitStream):
         try:
             sol, sts = build_ordered(d)
             if "remove" in d["edit"]:
-                sol.remove_structure(sts[d["edit"]["remove"]])
+                victim = sts[d["edit"]["remove"]]
+                if victim.solver is not None and (d["edit"]["remove"] + len(d["final_conns"])) % 3 != 0:
+                    # the structure is a placed sub-solver: it is EMPTIED and pruned away (a dead branch with live
+                    # links) instead of being removed by hand
+                    victim.solver.remove_structure(victim.solver.structures[0])
+                    sol.prune()
+                    if victim in sol.structures:
+                        raise ValueError("prune() kept a dead branch")
+                else:
+                    sol.remove_structure(victim)
             else:
                 i = d["edit"]["cut"]
                 sol.cut_structure(sts[i])
